@@ -380,7 +380,7 @@ def _width_case(draw):
 
 SUBS = [
     Sub("shape_order_determinism", check, strategy=_case, quick=220, thorough=5000, shards=16, shrink_quick=False,
-        floors={"nt": 0.247, "control": 0.15, "dict": 0.237, "quantiles>=2": 0.279, "index_equality_checked": 0.02}),
+        floors={"nt": 0.247, "control": 0.15, "dict": 0.237, "quantiles>=2": 0.251, "index_equality_checked": 0.02}),
     Sub("width", check_width, strategy=_width_case, quick=30, thorough=600, shards=8, shrink_quick=False,
         floors={"nt": 0.2}),
     Sub("group_constant_predictions", check_group_constant, strategy=_group_constant_case, quick=400, thorough=8000, shards=16,
